@@ -143,9 +143,11 @@ def suites(tier, seed):
             src += harness(n, st, body)
             stubs |= set(rs.stub_names(("barrier", "fmt") + tuple(st)))
             hs.append(Harness(n, unwind=70, timeout=1800, site=nm, desc="%s on %d symbolic bytes: no panic/overflow/OOB reachable" % (nm, L), bounds={"input_len": L}))
-    for L in object_L + [64, 65]:
+    for L in object_L + [64, 65] + [31, 32, 33, 40, 47, 48]:
         for (nm, st, body) in object_sites(L):
             if L in (64, 65) and not nm.startswith("SignedMessage"):
+                continue
+            if L in (31, 32, 33, 40, 47, 48) and (L in object_L or nm != "DryocBox_from_sealed_bytes"):
                 continue
             n = "c04_%s_L%d" % (nm, L)
             src += harness(n, st, body, extra=RESIZE_STUB)
